@@ -21,6 +21,11 @@ Cyc ==
   { <<I(1, "pnode", <<2>>, x1), I(2, "pnode", <<3>>, x2), I(3, "pnode", <<1>>, x3), I(4, "pnode", <<>>, <<>>), I(5, "pholder", <<3>>, y)>> :
       x1 \in Opt({4, 3}), x2 \in Opt({4}), x3 \in Opt({4, 3}), y \in Opt({1}) }
   \cup { <<I(5, "pholder", <<2, 4>>, <<>>), I(4, "pnode", x, <<>>), I(2, "pnode", <<1>>, <<4>>), I(1, "pnode", <<2>>, <<>>)>> : x \in Opt({4, 1}) }
+(* an entity that redeclares the reference attribute it inherits (pspecial: SELF\pholder.one : psub) and declares an *)
+(* attribute after it: the eager and the lazy reader must agree on where each value stands                          *)
+Redecl ==
+  { <<I(1, "psub", n1, <<>>), I(2, "psub", n2, <<>>), I(3, "pspecial", x, y), I(4, "pholder", <<1>>, y)>> :
+      n1 \in Opt({1, 2}), n2 \in Opt({1}), x \in {<<>>, <<1, 2>>, <<2>>}, y \in Opt({1, 2}) }
 SetValued ==
   { <<I(1, t1, <<>>, <<>>), I(2, "inode", <<>>, <<>>), I(3, h1, x1, y1), I(4, "iholder", x2, y2)>> :
       t1 \in {"inode", "isubnode", "isubsub", "idia", "idl"}, h1 \in {"iholder", "isub"},
@@ -32,7 +37,7 @@ Single ==
 Two ==
   { <<I(1, "itwo", <<>>, <<>>), I(2, "itwo", <<>>, <<>>), I(3, "ipair", <<t>>, y), I(4, "ipair", <<u>>, z)>> :
       t \in {1, 2}, u \in {1, 2}, y \in Opt({1, 2}), z \in Opt({1}) }
-Pops == IF Family = "plain" THEN Plain \cup Cyc ELSE SetValued \cup Single \cup Two
+Pops == IF Family = "plain" THEN Plain \cup Cyc \cup Redecl ELSE SetValued \cup Single \cup Two
 (* every population in one spelling picked by a hash of its shape; a probe subset (and, when Deep, every        *)
 (* population) in every layout; string forms rotate with the layout                                            *)
 RECURSIVE Weight(_, _)
